@@ -250,3 +250,18 @@ fn ob_uring_drop_once_cap2() { step_drop_once(2); }
 #[kani::proof]
 #[kani::unwind(6)]
 fn ob_uring_drop_once_cap4() { step_drop_once(4); }
+
+// ---- helpers used by the units of the ring's clients (mpmc core) ---------------------
+impl<T> UnsynchronizedRingBuffer<T> {
+  /// Put the ring into an arbitrary well-formed index configuration holding `len` items
+  /// (slots must then be written with `k_write`).  head ranges over all of usize.
+  pub(crate) fn k_set_any_indices(&mut self, len: usize) {
+    let head: usize = kani::any();
+    self.head = head;
+    self.tail = head.wrapping_add(len);
+  }
+  pub(crate) fn k_write(&mut self, i: usize, v: T) {
+    let idx = self.head.wrapping_add(i) & self.mask;
+    unsafe { (*self.buffer[idx].get()).write(v); }
+  }
+}
